@@ -128,6 +128,66 @@ def check_part(ctx, case, outpars, srcpars, dup, features, mult=None, roots=None
     return not bad
 
 
+def census(ctx, case, nested, roots, features):
+    """duplicate_merged_cells=False, whole attribute: (1) one newline per w:br (and per literal newline of a text node), wherever the
+    break stands - in a paragraph, outside every paragraph, below a hyperlink, in a text box; (2) inline content outside every
+    paragraph that stands in a table cell stays in that cell: it is emitted in the cell that holds the cell's own paragraphs"""
+    good = True
+    try:
+        strings = flat(nested, 4)
+        want = 0
+        for root in roots:
+            for x in root.iter():
+                if not isinstance(x.tag, str): continue
+                t = src.ptag(x)
+                in_math = any(src.ptag(a) == 'm:oMath' for a in x.iterancestors())
+                if t == 'm:oMath' and not in_math: want += ''.join(x.itertext()).count('\n')
+                elif in_math: continue
+                elif t == 'w:br': want += 1
+                elif t == 'w:t': want += (x.text or '').count('\n')
+        got = sum(s.count('\n') for s in strings if isinstance(s, str))
+        ctx.count('newline census (one newline per break over the whole attribute, duplication off)')
+        if got != want:
+            good = False
+            ctx.fail('the number of newline characters of a part differs from the number of its breaks (duplicate_merged_cells=False)', case,
+                     {'newlines': got}, {'breaks': want}, features=features + ['newline-census', 'fewer' if got < want else 'more'])
+        # (2) cell membership of inline content outside paragraphs
+        where = {}
+        for a, tb in enumerate(nested):
+            for b, tr in enumerate(tb):
+                for c, tc in enumerate(tr):
+                    for s in tc:
+                        if isinstance(s, str):
+                            for t in src.TOKEN.findall(s): where.setdefault(t, []).append((a, b, c))
+        for root in roots:
+            for cell in root.iter():
+                if not isinstance(cell.tag, str) or src.ptag(cell) != 'w:tc': continue
+                pr = src.child(cell, 'w:tcPr'); vm = src.child(pr, 'w:vMerge') if pr is not None else None
+                if vm is not None and src.wval(vm) in (None, 'continue'): continue
+                if any(src.ptag(a) in ('w:hyperlink', 'w:p') for a in cell.iterancestors()): continue
+                # only cells whose children are paragraphs and runs WITHOUT paragraphs below them (a text box restarts the nesting)
+                if any(isinstance(k.tag, str) and (src.ptag(k) not in ('w:tcPr', 'w:p', 'w:r') or any(isinstance(d.tag, str) and src.ptag(d) in ('w:p', 'w:tbl') for d in k.iterdescendants()))
+                       for k in cell): continue
+                own = [t for k in cell if isinstance(k.tag, str) and src.ptag(k) == 'w:p' and not any(src.ptag(d) == 'w:p' for d in k.iterdescendants())
+                       for x in k.iter() if isinstance(x.tag, str) and src.ptag(x) == 'w:t' and not any(src.ptag(a) == 'w:hyperlink' for a in x.iterancestors())
+                       for t in src.TOKEN.findall(x.text or '')]
+                stray = [t for k in cell if isinstance(k.tag, str) and src.ptag(k) == 'w:r'
+                         for x in k.iter() if isinstance(x.tag, str) and src.ptag(x) == 'w:t' and not any(src.ptag(a) in ('w:p', 'w:hyperlink') for a in x.iterancestors())
+                         for t in src.TOKEN.findall(x.text or '')]
+                if not own or not stray: continue
+                home = where.get(own[0])
+                if not home or len(home) != 1: continue
+                ctx.count('cells with paragraphs AND inline content outside paragraphs: the content stays in the cell')
+                for t in stray:
+                    if where.get(t) and where[t] != home:
+                        good = False
+                        ctx.fail('inline content outside every paragraph left the table cell it stands in', case, {'token': t, 'emitted_in': where[t], 'cell': home[0]},
+                                 features=features + ['stray_inline', 'cell-membership']); break
+    except Exception as e:
+        ctx.notes.append('census not evaluated: ' + type(e).__name__ + ': ' + str(e)[:100])
+    return good
+
+
 def closing_oracle(ctx, data, v, real=False):
     good = True
     # C02_post_part (any tree, duplicate_merged_cells=False): the records are the paragraphs the walk descends to, each once, in
@@ -222,6 +282,7 @@ def one(ctx, data, meta=None, opts=((False, True), (False, False))):
             mult = {path: paths.count(path) for path in paths}
             sp = [p for path in dict.fromkeys(paths) for p in src.paragraphs(parts[path], path)]
             if not check_part(ctx, {**case, 'attribute': attr}, flat(i[attr]['ok'], 4), sp, dup, feats, mult, roots=[parts[path] for path in dict.fromkeys(paths)]): good = False
+            if not dup and not census(ctx, {**case, 'attribute': attr}, i[attr]['ok'], [parts[path] for path in paths], feats): good = False
     if good: ctx.validated += 1
     if meta and meta['stats'].get('ri:text', 0) >= 5 and meta['stats'].get('par', 0) >= 3: ctx.nontrivial(jhash(data.hex()))
     return good
